@@ -6,9 +6,10 @@ CONSTANTS
   MsgVals = {1, 2, 4, 6}
   WrongKeys = {5}
   WrongMsgs = {3}
-  Deltas = {1, 6}
+  Deltas = {1, 5, 6}
   SameModes = {TRUE, FALSE}
-  MaxTouched = 2
+  MaxTouched = 3
+  GenMaxMixed = 2
   GenWithRepeat = FALSE
   AsCoded = TRUE
 INVARIANT GPrint
